@@ -366,3 +366,820 @@ def rule_sniff_agrees(repo, col):
               'sample column "non-numeric" and it is imported as metadata'
               % ' and '.join('%s%s' % ('' if p else 'not ', t)
                              for t, p in sorted(missing)))
+
+
+# ---------------------------------------------------------------------------
+RULE_TEXT['AX-COMPRESSED'] = (
+    'Every matrix Table._to_sparse hands to the constructor is in a '
+    'compressed format (CSR/CSC): the table subscripts and slices its '
+    'matrix (sort_order, align_to, head), which a COO/DOK/LIL matrix does '
+    'not support.')
+
+_UNCOMPRESSED = {'coo_matrix', 'dok_matrix', 'lil_matrix', 'dia_matrix',
+                 'bsr_matrix', 'coo_array', 'dok_array', 'lil_array'}
+_COMPRESSED = {'csr_matrix', 'csc_matrix', 'csr_array', 'csc_array'}
+
+
+def _reaching_values(fn, name, at):
+    """Right-hand sides of the assignments to `name` that reach the
+    statement containing node `at` (None when the entry reaches it)."""
+    from .cfg import CFG
+    cfg = CFG(fn)
+    here = [c for c in cfg.stmt_nodes() if c.kind == 'stmt' and any(
+        x is at for x in ast.walk(c.stmt)) and not isinstance(
+        c.stmt, (ast.For, ast.While, ast.If, ast.With, ast.Try))]
+    if not here:
+        return None
+    defs = {}
+    for c in cfg.stmt_nodes():
+        st = c.stmt
+        if c.kind == 'stmt' and isinstance(st, ast.Assign) and any(
+                isinstance(t, ast.Name) and t.id == name
+                for t in st.targets):
+            defs[c] = st
+    out, seen, stack = [], set(), list(cfg.pred[here[0]])
+    while stack:
+        c = stack.pop()
+        if c in seen:
+            continue
+        seen.add(c)
+        if c in defs:
+            out.append(defs[c])
+            continue
+        if c is cfg.entry:
+            return None
+        stack.extend(cfg.pred[c])
+    return out
+
+
+def _format_of(repo, rel, fn, e, at=None, depth=0):
+    """'c' compressed, 'u' uncompressed, None unknown; `at` is the node
+    whose reaching definitions resolve names."""
+    def join(got):
+        got = set(got)
+        if len(got) == 1:
+            return got.pop()
+        return 'u' if 'u' in got else None
+    if depth > 8:
+        return None
+    at = at if at is not None else e
+    if isinstance(e, ast.Name):
+        defs = _reaching_values(fn, e.id, at)
+        if not defs:
+            return None
+        return join(_format_of(repo, rel, fn, d.value, d, depth + 1)
+                    for d in defs)
+    if isinstance(e, ast.Attribute) and e.attr == 'T':
+        return _format_of(repo, rel, fn, e.value, at, depth + 1)
+    if isinstance(e, ast.IfExp):
+        return join(_format_of(repo, rel, fn, x, at, depth + 1)
+                    for x in (e.body, e.orelse))
+    if isinstance(e, ast.Call):
+        name = (call_name(e) or '').split('.')[-1]
+        if name in _UNCOMPRESSED:
+            return 'u'
+        if name in _COMPRESSED or name in ('tocsr', 'tocsc'):
+            return 'c'
+        if name in ('transpose', 'astype', 'copy') and isinstance(
+                e.func, ast.Attribute):
+            return _format_of(repo, rel, fn, e.func.value, at, depth + 1)
+        if isinstance(e.func, ast.Name) and repo.has_func(rel, name):
+            g = repo.func(rel, name)
+            rets = [r for r in body_walk(g) if isinstance(r, ast.Return)
+                    and r.value is not None]
+            if rets:
+                return join(_format_of(repo, rel, g, r.value, r, depth + 2)
+                            for r in rets)
+    return None
+
+
+def rule_compressed_matrix(repo, col):
+    rule = 'AX-COMPRESSED'
+    q = 'Table._to_sparse'
+    if not repo.has_func(TABLE, q):
+        col.unknown(rule, TABLE, q, 'anchor', None, 'function not found')
+        return
+    fn = repo.func(TABLE, q)
+    params = set(a.arg for a in fn.args.args)
+    n = 0
+    for r in body_walk(fn):
+        if not isinstance(r, ast.Return) or r.value is None:
+            continue
+        n += 1
+        fmt = _format_of(repo, TABLE, fn, r.value, r)
+        role = 'return@%d' % n
+        if fmt == 'u':
+            col.bad(rule, TABLE, q, 'uncompressed-return', r,
+                    '`%s` hands the constructor a matrix that is not '
+                    'CSR/CSC: the table it builds cannot be re-ordered '
+                    '(sort_order / align_to subscript the matrix)'
+                    % unparse(r, 60))
+        elif fmt == 'c':
+            col.ok(rule, TABLE, q, role, r, 'compressed')
+        else:
+            col.unknown(rule, TABLE, q, role, r,
+                        'format of the returned matrix not resolved')
+    col.ok(rule, TABLE, q, 'scan', None, '%d returns' % n)
+
+
+# ===========================================================================
+# sixth round of seeded changes
+# ===========================================================================
+from .flow import expr_tainted, taint          # noqa: E402
+
+RULE_TEXT.update({
+    'TA-LOSSY': 'values are never passed through a narrowing conversion',
+    'SB-CATLOOP': 'from_hdf5 stores every metadata category it finds for '
+                  'every id: whether a category is kept never depends on '
+                  'the values it holds (0, False and "" are values).',
+    'TA-GZIPMAGIC': 'is_gzip answers from the first two bytes of the file '
+                    'on every path, never from the file name.',
+    'TA-H5STR': 'the variable-length string type used for ids and text '
+                'metadata declares UTF-8 (or is h5py\'s default str type): '
+                'the writer hands it UTF-8 bytes.',
+    'SB-SELECTION-KIND': 'Table.filter never turns a collection of ids into '
+                         'a predicate: collections are validated against '
+                         'the axis (unknown ids are refused), predicates '
+                         'are not.',
+    'SB-VISITALL': 'partition classifies every id of the axis (the only '
+                   'ids left out are those whose label is None under '
+                   'ignore_none); collapse looks at every part.',
+    'TA-SHUFFLE': 'a hand-written shuffle draws the partner of position k '
+                  'from the positions not settled yet (k..n-1); drawing it '
+                  'from the whole range is the biased "naive shuffle".',
+    'OR-DELKEY': 'del_metadata removes a key wherever it is present, '
+                 'whatever value it holds.',
+    'TA-LINESPLIT': 'text that carries ids or metadata is split into lines '
+                    'at newlines only; str.splitlines also splits at VT, '
+                    'FF, FS/GS/RS, NEL and the Unicode line/paragraph '
+                    'separators, which are legal inside a field.',
+    'SB-PRESENCE': 'presence / non-zero counts compare with != 0, not '
+                   '> 0: negative entries are entries.',
+    'OR-ENTER': 'errstate applies its override when the block is entered, '
+                'not when the manager object is created.',
+    'OR-CHECKALL': 'the constructor checks every error kind: errcheck is '
+                   'not handed a hand-picked list of kinds there.',
+})
+
+
+def rule_formatter_identity(repo, col):
+    """TA-LOSSY (writer side): general_formatter writes metadata values as
+    they are (text is encoded, None becomes the empty placeholder); no
+    str()/float()/int()/repr()/format coercion of a value."""
+    rule = 'TA-LOSSY'
+    q = 'general_formatter'
+    if not repo.has_func(TABLE, q):
+        return
+    fn = repo.func(TABLE, q)
+    ps = [a.arg for a in fn.args.args]
+    hdr = ps[1] if len(ps) > 1 else 'header'
+
+    def seed(n):
+        return isinstance(n, ast.Subscript) and dotted(n.slice) == hdr
+    tainted = taint(fn, seed)
+    for _ in range(4):
+        # collections the values are appended to carry them too
+        more = {c.func.value.id for c in ast.walk(fn) if isinstance(
+            c, ast.Call) and isinstance(c.func, ast.Attribute) and
+            c.func.attr in ('append', 'extend', 'add') and isinstance(
+                c.func.value, ast.Name) and c.args and
+            expr_tainted(c.args[0], tainted, seed)}
+        # ... and so do the variables that walk such a collection
+        for g in ast.walk(fn):
+            if isinstance(g, (ast.comprehension, ast.For)) and \
+                    expr_tainted(g.iter, tainted | more, seed):
+                more |= set(target_names_(g.target))
+        if more <= tainted:
+            break
+        tainted = taint(fn, seed, initial=tainted | more)
+    bad = []
+    for n in ast.walk(fn):
+        if isinstance(n, ast.Call) and call_name(n) in (
+                'str', 'repr', 'float', 'int', 'bool', 'format',
+                'np.float64', 'np.int64', 'np.str_') and n.args and \
+                expr_tainted(n.args[0], tainted, seed):
+            bad.append(n)
+        elif isinstance(n, ast.JoinedStr) and any(
+                isinstance(v, ast.FormattedValue) and
+                expr_tainted(v.value, tainted, seed) for v in n.values):
+            bad.append(n)
+        elif isinstance(n, ast.BinOp) and isinstance(n.op, ast.Mod) and \
+                isinstance(n.left, ast.Constant) and isinstance(
+                n.left.value, str) and expr_tainted(n.right, tainted, seed):
+            bad.append(n)
+    col.check(not bad, rule, TABLE, q, 'values-as-they-are',
+              bad[0] if bad else fn, 'no coercion of a metadata value',
+              '`%s` converts a metadata value before it is written: a '
+              'number (e.g. a numpy scalar read back from a file) becomes '
+              'text, or loses precision' % (unparse(bad[0], 60)
+                                            if bad else ''))
+
+
+def rule_category_loop(repo, col):
+    rule = 'SB-CATLOOP'
+    q = 'Table.from_hdf5'
+    if not repo.has_func(TABLE, q):
+        return
+    fn = repo.func(TABLE, q)
+    n = 0
+    for loop in ast.walk(fn):
+        if not (isinstance(loop, ast.For) and "'metadata'" in unparse(
+                loop.iter, 200) and 'group' not in unparse(loop.iter, 200)):
+            continue
+        n += 1
+        # names that hold what was read from the dataset
+        tgt = target_names_(loop.target)
+        loaded = set(tgt[1:]) if len(tgt) > 1 else set(tgt)
+        for st in ast.walk(loop):
+            if isinstance(st, ast.Assign) and any(
+                    isinstance(x, ast.Name) and x.id in loaded
+                    for x in ast.walk(st.value)):
+                loaded |= {t.id for t in st.targets
+                           if isinstance(t, ast.Name)}
+        bad = None
+        for st in loop.body:
+            for x in ast.walk(st) if isinstance(st, ast.If) else ():
+                if isinstance(x, (ast.Continue, ast.Break)) and any(
+                        isinstance(y, ast.Name) and y.id in loaded
+                        for y in ast.walk(st.test)):
+                    bad = st
+            if isinstance(st, ast.If) and any(
+                    isinstance(y, ast.Name) and y.id in loaded
+                    for y in ast.walk(st.test)) and any(
+                    isinstance(z, ast.Assign) and any(
+                        isinstance(t, ast.Subscript) for t in z.targets)
+                    for z in ast.walk(st)):
+                bad = bad or st
+        col.check(bad is None, rule, TABLE, q, 'every-category', bad or loop,
+                  'each category found is stored for every id',
+                  'whether a category is read depends on its values (`%s`): '
+                  'a category that is 0 / False / "" for every id is '
+                  'dropped on read' % (unparse(bad.test, 60) if bad else ''))
+    if not n:
+        col.unknown(rule, TABLE, q, 'every-category', fn,
+                    'metadata loop not found')
+
+
+def target_names_(t):
+    return [x.id for x in ast.walk(t) if isinstance(x, ast.Name)]
+
+
+def rule_gzip_magic(repo, col):
+    rule = 'TA-GZIPMAGIC'
+    rel = 'biom/util.py'
+    if not repo.has_func(rel, 'is_gzip'):
+        return
+    fn = repo.func(rel, 'is_gzip')
+
+    def seed(n):
+        return isinstance(n, ast.Call) and isinstance(
+            n.func, ast.Attribute) and n.func.attr in ('read', 'peek')
+    tainted = taint(fn, seed)
+    rets = [r for r in body_walk(fn) if isinstance(r, ast.Return)]
+    bad = [r for r in rets if not expr_tainted(r.value, tainted, seed)]
+    col.check(bool(rets) and not bad, rule, rel, 'is_gzip', 'by-content',
+              bad[0] if bad else fn, 'every answer is computed from the '
+              'bytes read', '`%s` answers without looking at the file: a '
+              'gzip-compressed table whose name does not say so is opened '
+              'as plain text' % (unparse(bad[0], 50) if bad else ''))
+
+
+def rule_h5_string_type(repo, col):
+    rule = 'TA-H5STR'
+    rel = 'biom/util.py'
+    m = repo.mod(rel)
+    n = 0
+    for a in ast.walk(m.tree):
+        if isinstance(a, ast.Assign) and any(
+                isinstance(t, ast.Name) and t.id in (
+                    'H5PY_VLEN_STR', 'H5PY_VLEN_UNICODE')
+                for t in a.targets) and isinstance(a.value, ast.Call):
+            n += 1
+            c = a.value
+            name = (call_name(c) or '').split('.')[-1]
+            enc = next((k.value for k in c.keywords if k.arg == 'encoding'),
+                       c.args[0] if name == 'string_dtype' and c.args
+                       else None)
+            vlen = next((k.value for k in c.keywords if k.arg == 'vlen'),
+                        None)
+            if name == 'special_dtype':
+                ok = isinstance(vlen, ast.Name) and vlen.id == 'str'
+            elif name == 'string_dtype':
+                ok = enc is None or (isinstance(enc, ast.Constant) and str(
+                    enc.value).lower().replace('-', '') == 'utf8')
+                ln = next((k.value for k in c.keywords
+                           if k.arg == 'length'), None)
+                ok = ok and (ln is None or (isinstance(ln, ast.Constant)
+                                            and ln.value is None))
+            else:
+                ok = None
+            tname = [t.id for t in a.targets if isinstance(t, ast.Name)][0]
+            if ok is None:
+                col.unknown(rule, rel, '<module>', 'type:%s' % tname, a,
+                            'constructor not recognised')
+            else:
+                col.check(ok, rule, rel, '<module>', 'type:%s' % tname, a,
+                          'variable-length UTF-8 text',
+                          '`%s` is not a variable-length UTF-8 string type: '
+                          'files holding non-ASCII ids or metadata declare '
+                          'a character set their bytes are not in'
+                          % unparse(c, 60))
+    if not n:
+        col.unknown(rule, rel, '<module>', 'type', None,
+                    'H5PY_VLEN_STR definition not found')
+
+
+def rule_selection_kind(repo, col):
+    rule = 'SB-SELECTION-KIND'
+    q = 'Table.filter'
+    if not repo.has_func(TABLE, q):
+        return
+    fn = repo.func(TABLE, q)
+    sel = [a.arg for a in fn.args.args if a.arg != 'self'][0]
+    bad = None
+    for n in ast.walk(fn):
+        if n is fn:
+            continue
+        if isinstance(n, (ast.FunctionDef,)) and n.name == sel:
+            bad = n
+        if isinstance(n, ast.Assign) and any(
+                isinstance(t, ast.Name) and t.id == sel
+                for t in n.targets) and isinstance(
+                n.value, (ast.Lambda,)):
+            bad = n
+        if isinstance(n, ast.Assign) and any(
+                isinstance(t, ast.Name) and t.id == sel
+                for t in n.targets) and isinstance(n.value, ast.Attribute) \
+                and n.value.attr in ('__contains__',):
+            bad = n
+    col.check(bad is None, rule, TABLE, q, 'selection-stays-a-collection',
+              bad or fn, '`%s` reaches the kernel as given' % sel,
+              '`%s` is replaced by a function: the kernel validates '
+              'collections of ids against the axis and does not validate '
+              'predicates, so unknown ids are silently ignored' % sel)
+
+
+def rule_visit_all(repo, col):
+    rule = 'SB-VISITALL'
+    # partition: no id skipped before it is classified
+    q = 'Table.partition'
+    if repo.has_func(TABLE, q):
+        fn = repo.func(TABLE, q)
+        loops = [l for l in body_walk(fn) if isinstance(l, ast.For) and
+                 isinstance(l.iter, ast.Call) and (
+                     call_name(l.iter) or '').endswith('.iter')]
+        for loop in loops:
+            label = None
+            for st in loop.body:
+                if isinstance(st, ast.Assign) and isinstance(
+                        st.value, ast.Call) and isinstance(
+                        st.targets[0], ast.Name) and label is None:
+                    label = st.targets[0].id
+            bad = None
+            for st in loop.body:
+                if isinstance(st, ast.If) and any(isinstance(
+                        x, (ast.Continue, ast.Break)) for x in ast.walk(st)):
+                    names = _names(st.test)
+                    if label is None or label not in names:
+                        bad = st
+            col.check(bad is None, rule, TABLE, q, 'every-id-classified',
+                      bad or loop, 'ids are only left out by their label',
+                      'ids are skipped under `%s` before / regardless of '
+                      'their label: the parts no longer cover the axis'
+                      % (unparse(bad.test, 60) if bad else ''))
+    # collapse: the loops over the parts have no break
+    q = 'Table.collapse'
+    if repo.has_func(TABLE, q):
+        fn = repo.func(TABLE, q)
+        par = {}
+        for p in ast.walk(fn):
+            for c in ast.iter_child_nodes(p):
+                par[id(c)] = p
+        bad = None
+        n = 0
+        for loop in body_walk(fn):
+            if isinstance(loop, ast.For) and 'partition' in unparse(
+                    loop.iter, 200):
+                n += 1
+                for b in ast.walk(loop):
+                    if isinstance(b, ast.Break):
+                        cur = b
+                        while id(cur) in par and not isinstance(
+                                par[id(cur)], (ast.For, ast.While)):
+                            cur = par[id(cur)]
+                        if par.get(id(cur)) is loop:
+                            bad = b
+        col.check(bad is None, rule, TABLE, q, 'every-part-seen',
+                  bad or fn, 'no part ends the loop over the parts (%d '
+                  'loops)' % n, 'a `break` leaves the loop over the parts: '
+                  'every part after the one that triggers it is dropped')
+
+
+def rule_naive_shuffle(repo, col, funcs=((TABLE, 'Table.subsample'),)):
+    rule = 'TA-SHUFFLE'
+    n = 0
+    for rel, q in funcs:
+        if not repo.has_func(rel, q):
+            continue
+        fn = repo.func(rel, q)
+        for loop in body_walk(fn):
+            if not (isinstance(loop, ast.For) and isinstance(
+                    loop.target, ast.Name)):
+                continue
+            k = loop.target.id
+            draws = {}
+            for st in loop.body:
+                if isinstance(st, ast.Assign) and isinstance(
+                        st.targets[0], ast.Name) and isinstance(
+                        st.value, ast.Call) and (call_name(st.value) or ''
+                                                 ).split('.')[-1] in (
+                        'integers', 'randint', 'randrange', 'choice'):
+                    draws[st.targets[0].id] = st
+            for st in loop.body:
+                # a[k], a[j] = a[j], a[k]
+                if isinstance(st, ast.Assign) and isinstance(
+                        st.targets[0], ast.Tuple) and isinstance(
+                        st.value, ast.Tuple) and len(
+                        st.targets[0].elts) == 2:
+                    idx = [dotted(e.slice) for e in st.targets[0].elts
+                           if isinstance(e, ast.Subscript)]
+                    if k in idx and any(j in draws for j in idx):
+                        j = [j for j in idx if j in draws][0]
+                        n += 1
+                        d = draws[j].value
+                        uses_k = any(isinstance(x, ast.Name) and x.id == k
+                                     for a in list(d.args) + [
+                                         kw.value for kw in d.keywords]
+                                     for x in ast.walk(a))
+                        col.check(uses_k, rule, rel, q, 'swap-partner', d,
+                                  'the partner is drawn from the unsettled '
+                                  'positions', '`%s` draws the swap partner '
+                                  'of position %s from the whole range: the '
+                                  'subsets are not equally likely (naive '
+                                  'shuffle)' % (unparse(d, 50), k))
+    col.ok(rule, TABLE, '<scope>', 'scan', None,
+           '%d hand-written swap loops' % n)
+
+
+def rule_delete_key(repo, col):
+    rule = 'OR-DELKEY'
+    q = 'Table.del_metadata'
+    if not repo.has_func(TABLE, q):
+        return
+    fn = repo.func(TABLE, q)
+    par = {}
+    for p in ast.walk(fn):
+        for c in ast.iter_child_nodes(p):
+            par[id(c)] = p
+    n = 0
+    for d in ast.walk(fn):
+        tgt = None
+        if isinstance(d, ast.Delete) and isinstance(d.targets[0],
+                                                    ast.Subscript):
+            tgt = d.targets[0]
+        elif isinstance(d, ast.Call) and isinstance(
+                d.func, ast.Attribute) and d.func.attr == 'pop' and \
+                len(d.args) >= 1 and isinstance(par.get(id(d)), ast.Expr):
+            tgt = d
+        if tgt is None:
+            continue
+        n += 1
+        cur, guards = d, []
+        while id(cur) in par:
+            p = par[id(cur)]
+            if isinstance(p, ast.If) and cur is not p.test and \
+                    cur in p.body:
+                guards.append(p.test)
+            if isinstance(p, (ast.For, ast.While, ast.FunctionDef)):
+                break
+            cur = p
+        bad = [g for g in guards if not (
+            isinstance(g, ast.Compare) and len(g.ops) == 1 and
+            isinstance(g.ops[0], ast.In))]
+        col.check(not bad, rule, TABLE, q, 'delete@%d' % n, d,
+                  'deleted whenever present',
+                  'the key is only deleted when `%s`: a key that is '
+                  'present with a value such as None stays'
+                  % (unparse(bad[0], 50) if bad else ''))
+    if not n:
+        col.unknown(rule, TABLE, q, 'delete', fn, 'no deletion found')
+
+
+LINESPLIT_ALLOWED = {
+    (TABLE, 'Table.from_adjacency'):
+        'adjacency text given as one string (documented input form)',
+}
+
+
+def rule_linesplit(repo, col, rels=None):
+    rule = 'TA-LINESPLIT'
+    n = 0
+    for rel, q, fn in repo.all_functions():
+        if '/tests/' in rel or isinstance(fn, ast.Lambda):
+            continue
+        if rels is not None and rel not in rels:
+            continue
+        for c in body_walk(fn):
+            if isinstance(c, ast.Call) and isinstance(
+                    c.func, ast.Attribute) and c.func.attr == 'splitlines':
+                n += 1
+                if (rel, q) in LINESPLIT_ALLOWED:
+                    col.ok(rule, rel, q, 'splitlines@%d' % n, c,
+                           LINESPLIT_ALLOWED[(rel, q)])
+                else:
+                    col.bad(rule, rel, q, 'splitlines', c,
+                            '`%s` also breaks lines at \\x0b \\x0c \\x1c-'
+                            '\\x1e \\x85 \\u2028 \\u2029: a field holding '
+                            'one of them is cut and its tail becomes a '
+                            'spurious row' % unparse(c, 50))
+    col.ok(rule, 'biom', '<package>', 'scan', None,
+           '%d splitlines calls' % n)
+
+
+def rule_presence(repo, col, funcs=(('biom/util.py',
+                                     'compute_counts_per_sample_stats'),
+                                    (TABLE, 'Table.nonzero_counts'),
+                                    (TABLE, 'Table.get_table_density'))):
+    rule = 'SB-PRESENCE'
+    n = 0
+    for rel, q in funcs:
+        if not repo.has_func(rel, q):
+            continue
+        fn = repo.func(rel, q)
+        for c in ast.walk(fn):
+            if isinstance(c, ast.Compare) and len(c.ops) == 1 and (
+                    isinstance(c.ops[0], (ast.Gt, ast.GtE)) and isinstance(
+                        c.comparators[0], ast.Constant) and
+                    c.comparators[0].value in (0, 1) or
+                    isinstance(c.ops[0], (ast.Lt, ast.LtE)) and isinstance(
+                        c.left, ast.Constant) and c.left.value in (0, 1)):
+                # used as a count: (x > 0).sum() / np.sum(x > 0) / ...
+                n += 1
+                col.bad(rule, rel, q, 'sign-sensitive', c,
+                        '`%s` counts only positive entries: a negative '
+                        'entry is not counted as present' % unparse(c, 40))
+        col.ok(rule, rel, q, 'scan', fn, 'no sign-sensitive presence test')
+
+
+def rule_errstate_entry(repo, col):
+    rule = 'OR-ENTER'
+    rel = 'biom/err.py'
+    m = repo.mod(rel)
+    fn = m.defs.get('errstate')
+    if fn is None:
+        col.unknown(rule, rel, 'errstate', 'anchor', None, 'not found')
+        return
+    if isinstance(fn, ast.ClassDef):
+        init = [x for x in fn.body if isinstance(x, ast.FunctionDef) and
+                x.name == '__init__']
+        calls = [c for i in init for c in ast.walk(i) if isinstance(
+            c, ast.Call) and call_name(c) in ('seterr', 'seterrcall')]
+        col.check(not calls, rule, rel, 'errstate', 'on-entry',
+                  calls[0] if calls else fn, 'the override is applied in '
+                  '__enter__', 'the override is applied when the manager '
+                  'is created (`__init__`), not when the block is entered')
+        return
+    has_yield = any(isinstance(x, (ast.Yield, ast.YieldFrom))
+                    for x in ast.walk(fn))
+    calls = [c for c in body_walk(fn) if isinstance(c, ast.Call) and
+             call_name(c) in ('seterr', 'seterrcall')]
+    col.check(has_yield or not calls, rule, rel, 'errstate', 'on-entry',
+              calls[0] if calls else fn, 'the override runs inside the '
+              'generator, i.e. on entry', 'errstate is a plain function '
+              'that calls `%s` and then returns a manager: the override is '
+              'in force from the moment the manager is created, also if it '
+              'is never entered' % (unparse(calls[0], 40) if calls else ''))
+
+
+def rule_check_all_kinds(repo, col):
+    rule = 'OR-CHECKALL'
+    q = 'Table.__init__'
+    fn = repo.func(TABLE, q)
+    calls = [c for c in body_walk(fn) if isinstance(c, ast.Call) and
+             call_name(c) == 'errcheck']
+    bad = [c for c in calls if len(c.args) > 1 or c.keywords]
+    col.check(bool(calls) and not bad, rule, TABLE, q, 'all-kinds',
+              bad[0] if bad else fn, 'errcheck(self) tests every kind',
+              '`%s` tests a hand-picked list of kinds: the others (e.g. '
+              'obssize / sampsize) are never tested for this input'
+              % (unparse(bad[0], 70) if bad else ''))
+
+
+def rule_subset_cleanup_axis(repo, col):
+    """After a subset read the clean-up of emptied vectors names its axis
+    (the *other* axis); remove_empty()/filter() without an axis acts on
+    both / the default one and drops requested ids."""
+    rule = 'AX-DEFAULT'
+    q = 'parse_biom_table'
+    if not repo.has_func(PARSE, q):
+        return
+    fn = repo.func(PARSE, q)
+    n = 0
+    for c in body_walk(fn):
+        if isinstance(c, ast.Call) and isinstance(c.func, ast.Attribute) \
+                and c.func.attr in ('remove_empty', 'filter') and \
+                isinstance(c.func.value, ast.Name):
+            n += 1
+            has_axis = any(k.arg == 'axis' for k in c.keywords) or \
+                len(c.args) > (0 if c.func.attr == 'remove_empty' else 1)
+            col.check(has_axis, rule, PARSE, q,
+                      'explicit-axis:%s' % c.func.attr, c,
+                      'the axis is named', '`%s` does not name an axis '
+                      'inside a function parametrised by `axis`: the '
+                      'clean-up after a subset read must spare the '
+                      'requested axis' % unparse(c, 50))
+
+
+RULE_TEXT['OR-REFUSE'] = ('a subset request naming an id the file does not '
+                          'hold is refused, also when other requested ids '
+                          'are found')
+
+
+def rule_refuse_any_missing(repo, col):
+    """The refusal of unknown requested ids is a containment test (subset,
+    set difference, length mismatch), not an 'is the selection empty' test:
+    the latter lets a request through when at least one id matched."""
+    rule = 'OR-REFUSE'
+    sites = [(TABLE, 'Table.from_hdf5', {'ids'}),
+             (PARSE, 'get_axis_indices', {'to_keep'})]
+    for rel, q, requested in sites:
+        if not repo.has_func(rel, q):
+            continue
+        fn = repo.func(rel, q)
+        req = taint(fn, lambda n: False, initial=set(requested))
+        k = 0
+        for st in ast.walk(fn):
+            if not (isinstance(st, ast.If) and any(
+                    isinstance(b, ast.Raise) for b in st.body)):
+                continue
+            names = _names(st.test)
+            if not names & req:
+                continue
+            t = st.test
+            src = unparse(t, 300)
+            if any(isinstance(x, ast.Constant) and x.value is None
+                   for x in ast.walk(t)):
+                continue            # `ids is not None`-style guards
+            k += 1
+            contain = ('issubset' in src or 'issuperset' in src or any(
+                isinstance(x, ast.BinOp) and isinstance(x.op, ast.Sub)
+                for x in ast.walk(t)) or any(
+                isinstance(x, ast.Compare) and isinstance(
+                    x.ops[0], (ast.LtE, ast.GtE, ast.Lt, ast.Gt, ast.NotEq))
+                and not any(isinstance(c, ast.Constant)
+                            for c in [x.left] + x.comparators)
+                for x in ast.walk(t)) or 'setdiff1d' in src)
+            core = t.operand if isinstance(t, ast.UnaryOp) and isinstance(
+                t.op, ast.Not) else t
+            empty = (isinstance(t, ast.UnaryOp) and isinstance(
+                t.op, ast.Not) and (
+                    isinstance(core, ast.Name) or
+                    (isinstance(core, ast.Call) and (
+                        call_name(core) == 'len' or (call_name(core) or ''
+                                                     ).endswith('.any'))) or
+                    (isinstance(core, ast.Attribute) and
+                     core.attr == 'size'))) or (
+                isinstance(t, ast.Compare) and len(t.ops) == 1 and
+                isinstance(t.ops[0], ast.Eq) and isinstance(
+                    t.comparators[0], ast.Constant) and
+                t.comparators[0].value == 0)
+            role = 'any-missing@%d' % k
+            if contain:
+                col.ok(rule, rel, q, role, st.test, 'containment test')
+            elif empty:
+                col.bad(rule, rel, q, 'any-missing', st.test,
+                        'the request is only refused when `%s`, i.e. when '
+                        'nothing matched: a request mixing known and '
+                        'unknown ids is accepted and the unknown ones are '
+                        'silently dropped' % unparse(st.test, 60))
+            else:
+                col.unknown(rule, rel, q, role, st.test,
+                            'form of the refusal test not recognised')
+
+
+RULE_TEXT['TA-VALDTYPE'] = (
+    'the value array handed to a sparse-matrix constructor is not '
+    'allocated with an integer / narrow dtype: record values are floats.')
+
+
+def rule_value_buffer_dtype(repo, col, funcs=((TABLE, 'Table.from_adjacency'),
+                                              (PARSE, 'parse_uc'))):
+    from .rules_generic import _dtype_word
+    rule = 'TA-VALDTYPE'
+    n = 0
+    for rel, q in funcs:
+        if not repo.has_func(rel, q):
+            continue
+        fn = repo.func(rel, q)
+        for c in body_walk(fn):
+            if not (isinstance(c, ast.Call) and (call_name(c) or '').split(
+                    '.')[-1] in ('coo_matrix', 'csr_matrix', 'csc_matrix')
+                    and c.args and isinstance(c.args[0], ast.Tuple) and
+                    c.args[0].elts):
+                continue
+            d = c.args[0].elts[0]
+            n += 1
+            allocs = []
+            if isinstance(d, ast.Name):
+                allocs = [a.value for a in body_walk(fn) if isinstance(
+                    a, ast.Assign) and any(isinstance(t, ast.Name) and
+                                           t.id == d.id for t in a.targets)]
+            else:
+                allocs = [d]
+            bad = None
+            for v in allocs:
+                if isinstance(v, ast.Call):
+                    w = _dtype_word(next((k.value for k in v.keywords
+                                          if k.arg == 'dtype'), None))
+                    if w:
+                        bad = (v, w)
+                    if isinstance(v.func, ast.Attribute) and \
+                            v.func.attr == 'astype' and v.args and \
+                            _dtype_word(v.args[0]):
+                        bad = (v, _dtype_word(v.args[0]))
+            col.check(bad is None, rule, rel, q, 'values@%d' % n,
+                      bad[0] if bad else c, 'values keep their float type',
+                      'the values are collected in `%s` (dtype %s): '
+                      'fractional record values are truncated before the '
+                      'matrix is built' % (unparse(bad[0], 50) if bad
+                                           else '', bad[1] if bad else ''))
+    col.ok(rule, TABLE, '<scope>', 'scan', None, '%d constructor calls' % n)
+
+
+RULE_TEXT['TA-NEGSENTINEL'] = (
+    'a position that dict.get() marks as absent with a negative number is '
+    'never tested with `is None` / `is not None` / truthiness: the test is '
+    'always the same, and -1 then indexes the last element.')
+
+
+def _neg_const(d):
+    return (isinstance(d, ast.UnaryOp) and isinstance(d.op, ast.USub) and
+            isinstance(d.operand, ast.Constant)) or (
+        isinstance(d, ast.Constant) and isinstance(d.value, (int, float))
+        and not isinstance(d.value, bool) and d.value < 0)
+
+
+def rule_negative_sentinel(repo, col, roots=((TABLE, 'Table.merge'),
+                                             (TABLE, 'Table._fast_merge'))):
+    from .rules_generic import closure
+    rule = 'TA-NEGSENTINEL'
+    n = 0
+    for (rel, q), fn in sorted(closure(repo, roots).items()):
+        if isinstance(fn, ast.Lambda):
+            continue
+
+        def is_neg_get(e):
+            return isinstance(e, ast.Call) and isinstance(
+                e.func, ast.Attribute) and e.func.attr == 'get' and \
+                len(e.args) == 2 and _neg_const(e.args[1])
+        gets = [c for c in ast.walk(fn) if is_neg_get(c)]
+        if not gets:
+            continue
+        n += len(gets)
+        sent = {}           # name -> the lookup it comes from
+        slots = {}          # (list name, tuple position) -> lookup
+        for _ in range(3):
+            for st in ast.walk(fn):
+                if isinstance(st, ast.Assign) and isinstance(
+                        st.targets[0], ast.Name) and (
+                        is_neg_get(st.value) or (isinstance(
+                            st.value, ast.Name) and st.value.id in sent)):
+                    sent[st.targets[0].id] = st.value
+                if isinstance(st, ast.Call) and isinstance(
+                        st.func, ast.Attribute) and st.func.attr == \
+                        'append' and isinstance(st.func.value, ast.Name) \
+                        and st.args and isinstance(st.args[0], ast.Tuple):
+                    for i, e in enumerate(st.args[0].elts):
+                        if is_neg_get(e) or (isinstance(e, ast.Name) and
+                                             e.id in sent):
+                            slots[(st.func.value.id, i)] = e
+                if isinstance(st, (ast.For, ast.comprehension)) and \
+                        isinstance(st.iter, ast.Name) and isinstance(
+                        st.target, ast.Tuple):
+                    for i, e in enumerate(st.target.elts):
+                        if (st.iter.id, i) in slots and isinstance(
+                                e, ast.Name):
+                            sent[e.id] = slots[(st.iter.id, i)]
+        bad = []
+        for c in ast.walk(fn):
+            if isinstance(c, ast.Compare) and len(c.ops) == 1 and \
+                    isinstance(c.ops[0], (ast.Is, ast.IsNot)) and \
+                    isinstance(c.left, ast.Name) and c.left.id in sent and \
+                    isinstance(c.comparators[0], ast.Constant) and \
+                    c.comparators[0].value is None:
+                bad.append(c)
+            if isinstance(c, (ast.If, ast.IfExp, ast.While)) and isinstance(
+                    c.test, ast.Name) and c.test.id in sent:
+                bad.append(c.test)
+        for b in bad:
+            col.bad(rule, rel, q, 'absent-test:%s' % (
+                b.left.id if isinstance(b, ast.Compare) else b.id), b,
+                    '`%s` tests for None a position whose absent marker is '
+                    'a negative number (`%s`): the test never fails and '
+                    'position -1 reads the last element'
+                    % (unparse(b, 40), unparse(gets[0], 50)))
+        if not bad:
+            col.ok(rule, rel, q, 'absent-test', gets[0],
+                   'negative absent markers are not tested against None')
+    col.ok(rule, TABLE, '<scope>', 'scan', None,
+           '%d negative-default lookups' % n)
